@@ -477,10 +477,11 @@ HIST = [
     ('x0 <= x1 + q', {'q': 0.5}),
     ('x0 <= x1 + q', {'q': -2.0}),
     ('x1 >= 3', None),
+    ('x0 <= tau*x1 + e', {'tau': 0.5, 'e': 0.25}),     # names that math / numpy export too: the user's values must win
     ('x0 < 2', {'tol': 0.25, 'rel': 0.0}),      # disturbers: judged differentially only
     ('x0 > 1.', {'tol': 0.0, 'rel': 0.0}),
 ]
-HIST_JUDGED = 7          # the first seven use the default margin and are also judged against their relation
+HIST_JUDGED = 8          # the first eight use the default margin and are also judged against their relation
 HGRID = [-3.0, -1.0, 0.0, 0.5, 1.0, 2.0, 3.0]
 
 
